@@ -435,8 +435,105 @@ func runC01(r *Report) {
 	}
 	// compression decision agrees with the written flag
 	comp := Calls(writePacket, false, "StreamProcessor.compressData")
-	if len(comp) != 1 {
+	compViaHelper := false
+	if len(comp) == 0 {
+		// the body may be prepared by a helper that receives the type byte value (`encodeBody(pkt, packetType)`)
+		var hc *ssa.Call
+		var h *ssa.Function
+		Instrs(writePacket, func(in ssa.Instruction) {
+			c, ok := in.(*ssa.Call)
+			if !ok || hc != nil {
+				return
+			}
+			g := c.Common().StaticCallee()
+			if g != nil && g.Pkg == writePacket.Pkg && len(g.Blocks) > 0 && len(Calls(g, false, "StreamProcessor.compressData")) == 1 {
+				hc, h = c, g
+			}
+		})
+		if hc != nil {
+			cc := Calls(h, false, "StreamProcessor.compressData")[0]
+			ok, why := false, "compress call in "+h.Name()+" is not guarded by IsCompressed() of the type value it was given"
+			for _, ft := range Facts(cc.Block()) {
+				c, isCall := stripValue(ft.Cond).(*ssa.Call)
+				if !isCall || !CalleeOf(c).Is("Type.IsCompressed") || !ft.Pol {
+					continue
+				}
+				pp, isP := stripValue(Recv(c)).(*ssa.Parameter)
+				if !isP {
+					continue
+				}
+				// the argument bound to that parameter is the type byte value that was written
+				var tv ssa.Value
+				for i, q := range h.Params {
+					if q == pp && i < len(hc.Call.Args) {
+						tv = hc.Call.Args[i]
+					}
+				}
+				written := false
+				for _, w := range writes {
+					if w == sizeWrite || isBodyWrite(w.(ssa.Instruction)) {
+						continue
+					}
+					if tv != nil && typeByteValue(wbuf[w]) == tv {
+						written = true
+					}
+				}
+				if !written {
+					why = "IsCompressed() is evaluated on a value other than the type byte that was written"
+					continue
+				}
+				ok = true
+				// with the flag set every success return of the helper has passed the compression; with the
+				// flag clear the compression is not reached
+				trueSucc, falseSucc := ft.If.Block().Succs[0], ft.If.Block().Succs[1]
+				if _, pol := normCond(ft.If.Cond, true); !pol {
+					trueSucc, falseSucc = falseSucc, trueSucc
+				}
+				hitsT := WalkFrom(trueSucc, nil, func(in ssa.Instruction) int {
+					if in == cc.(ssa.Instruction) {
+						return Stop
+					}
+					if ret, isR := in.(*ssa.Return); isR && RetErrKind(ret) != "nonnil" {
+						return Hit
+					}
+					return Cont
+				}, nil)
+				hitsF := WalkFrom(falseSucc, nil, func(in ssa.Instruction) int {
+					if in == cc.(ssa.Instruction) {
+						return Hit
+					}
+					return Cont
+				}, nil)
+				if len(hitsT) > 0 {
+					ok, why = false, "a path with the compressed flag set returns the body without compressing it"
+				}
+				// ... and no success return of the helper is reached before the flag was looked at
+				for _, ret := range Returns(h) {
+					if RetErrKind(ret) == "nonnil" {
+						continue
+					}
+					clear := false
+					for _, f2 := range Facts(ret.Block()) {
+						if c2, isC := stripValue(f2.Cond).(*ssa.Call); isC && CalleeOf(c2).Is("Type.IsCompressed") && !f2.Pol {
+							clear = true
+						}
+					}
+					if !clear && ReachesWithout(h, ret, func(in ssa.Instruction) bool { return in == cc.(ssa.Instruction) }) {
+						ok, why = false, "a success return of "+h.Name()+" is reached without the compressed flag having been examined (a body that goes out with the flag set but uncompressed cannot be inflated by the reader)"
+					}
+				}
+				if len(hitsF) > 0 {
+					ok, why = false, "the body is compressed on a path where the flag is clear"
+				}
+			}
+			r.Ob("R-C01-2", CallPos(cc), ok, map[bool]string{true: "writer gzips exactly when the written type byte carries the compressed flag (in " + h.Name() + ")", false: why}[ok], "WritePacket", "compress-iff-flag")
+			compViaHelper = true
+		}
+	}
+	if len(comp) != 1 && !compViaHelper {
 		r.Fail("R-C01-2", writePacket.Pos(), "expected one compress call in WritePacket", "WritePacket", "compress-iff-flag")
+	} else if compViaHelper {
+		// decided through the helper above
 	} else {
 		ok := false
 		why := "compress call is not guarded by IsCompressed() of the written type byte"
